@@ -359,25 +359,32 @@ func (g *gen) optionalForm(t *Ty) *Val {
 	var forms []string
 	if u.K != "opt" {
 		forms = append(forms,
-			"(§yes() ? "+in.Expr+" : nil)",
-			"(§no() ? nil : "+in.Expr+")",
-			"(§no() ? (nil as "+ts+") : "+in.Expr+")",
-			"(§yes() ? "+in.Expr+" : (nil as "+ts+"))",
+			"(A.yes() ? "+in.Expr+" : nil)",
+			"(A.no() ? nil : "+in.Expr+")",
+			"(A.no() ? (nil as "+ts+") : "+in.Expr+")",
+			"(A.yes() ? "+in.Expr+" : (nil as "+ts+"))",
 			"(("+in.Expr+" as "+ts+") ?? "+in.Expr+")",
 		)
 	}
 	forms = append(forms,
-		"((nil as ("+ts+")?) ?? (§yes() ? ("+in.Expr+" as "+ts+") : nil))",
+		"((nil as ("+ts+")?) ?? (A.yes() ? ("+in.Expr+" as "+ts+") : nil))",
 		"(({\"k\": "+in.Expr+"} as {String: "+us+"})[\"k\"])",
 		"("+in.Expr+" as? "+us+")",
-		"(("+in.Expr+" as ("+ts+")?)!)",
-		"(fun (): "+ts+" { return "+in.Expr+" })()",
 	)
+	if in.K != "nil" {
+		forms = append(forms, "(("+in.Expr+" as ("+ts+")?)!)")
+	}
+	if u.K == "num" && u.Name == "Int" {
+		forms = append(forms, "A.optInt("+in.Expr+")", "A.optInt("+in.Expr+")")
+	}
+	if u.K == "string" {
+		forms = append(forms, "A.optString("+in.Expr+")", "A.optString("+in.Expr+")")
+	}
 	switch g.r.Intn(6) {
 	case 0: // absent key / failing branch: nil
 		nilForms := []string{
 			"(({\"k\": " + in.Expr + "} as {String: " + us + "})[\"z\"])",
-			"(§no() ? (" + in.Expr + " as " + ts + ") : nil)",
+			"(A.no() ? (" + in.Expr + " as " + ts + ") : nil)",
 		}
 		return &Val{K: "nil", Expr: lib.Pick(g.r, nilForms)}
 	}
